@@ -7,7 +7,7 @@ from curtsies.window import CursorAwareWindow
 
 PROP = "C18"
 MODULES = ["Curtsies.Properties.C18"]
-RULE = ("get_cursor_position: EVERY string `pre` of length <= 3 (quick) / <= 4 (thorough) over {ESC [ 0x9b 1 7 ; R a \\n} "
+RULE = ("get_cursor_position: EVERY string `pre` of length <= 4 (quick) / <= 5 (thorough) over {ESC [ 0x9b 1 7 ; R a \\n} "
         "ahead of a report, x both CSI forms x reports {1;1, 17;7, 1000000;71} x trailing input {'', 'a', a second report} "
         "x callback present/absent; seeded: longer `pre` incl. complete look-alike reports (tie only), OSError at random "
         "positions, reads returning '' (ValueError), a non-ASCII decimal digit; _get_cursor_vertical_diff_once: every "
@@ -131,7 +131,7 @@ def gcp_oracle(c, o):
 
 def mk_gcp(ctx):
     cases = []
-    maxlen = 4 if ctx.thorough else 3
+    maxlen = 5 if ctx.thorough else 4
     reports = [(1, 1), (17, 7), (1000000, 71)]
     posts = ["", "a", "\x1b[1;1R"]
     n0 = 0
@@ -140,7 +140,8 @@ def mk_gcp(ctx):
             pre = "".join(pre)
             for csi, rep, post, cb in itertools.product((ESC + "[", CSI8), reports, posts, (True, False)):
                 body = pre + csi + "%d;%dR" % rep + post
-                cases.append(dict(kind="gcp", pre=pre, report=rep, post=post, cb=cb, events=list(body)))
+                cases.append(dict(kind="gcp", pre=pre, report=rep, post=post, cb=cb, events=list(body),
+                                  lookalike=bool(REPORT.search(pre))))
                 n0 += 1
     ctx.exhaustive.append("get_cursor_position: all pre of length <= %d over 9 symbols x 2 CSI x 3 reports x 3 trailing x "
                           "callback on/off: %d cases" % (maxlen, n0))
@@ -152,7 +153,9 @@ def mk_gcp(ctx):
             k = r.randint(0, len(pre))
             pre = pre[:k] + r.choice([ESC + "[", CSI8]) + r.choice(["1;1R", "7;17R", "1;", "17", "1;1", ARABIC3 + ";7R"]) + pre[k:]
         rep = (r.choice([1, 2, 9, 10, 24, 99, 100, 2 ** 40]), r.choice([1, 5, 80, 10 ** 12]))
-        rows = str(rep[0]) if r.random() < 0.9 else str(rep[0]).replace("2", "2")
+        rows = str(rep[0])
+        if r.random() < 0.1:                 # a non-ASCII decimal digit in the row number
+            rows, rep = rows + ARABIC3, (rep[0] * 10 + 3, rep[1])
         post = "".join(r.choice(ALPHA) for _ in range(r.randint(0, 3)))
         body = list(pre + r.choice([ESC + "[", CSI8]) + "%s;%dR" % (rows, rep[1]) + post)
         events = []
@@ -255,11 +258,11 @@ def vdiff_oracle(c, o):
     final_row = c["rounds"][k - 1][0]
     if o["last"] != final_row:
         return "_last_cursor_row is %r after the terminal reported row %d" % (o["last"], final_row)
-    moved = 0 if c["last"] is None else final_row - c["last"]
+    # observed movement: from the last known row (the first report when none was known) to the final report
+    known = c["last"] if c["last"] is not None else c["rounds"][0][0]
+    moved = final_row - known
     if (o["top"] - c["top"]) + o["ret"] != moved:
         return "top_usable_row changed by %d and %d was returned, cursor moved %d" % (o["top"] - c["top"], o["ret"], moved)
-    if c["last"] is None and (o["top"] != c["top"] or o["ret"] != 0):
-        return "no previous row known, yet top/return changed: %r" % (o,)
     if o["in_diff"]:
         return "in_get_cursor_diff left set"
     return None
@@ -334,24 +337,6 @@ def check(ctx):
             ctx.violation("get_cursor_vertical_diff: " + w, c, None)
 
     # sequences of calls: the bookkeeping telescopes over any history of movements
-    r = ctx.rng
-    for _ in range(600 if ctx.thorough else 200):
-        w = window()
-        w.extra_bytes_callback = None
-        top0 = w.top_usable_row = r.randint(0, 10)
-        row = r.randint(0, 20)
-        w._last_cursor_row, w.in_get_cursor_diff = row, False
-        total, hist = 0, []
-        for _ in range(r.randint(1, 6)):
-            row = max(0, row + r.randint(-6, 6))
-            w.in_stream = Scripted(report_for(row))
-            total += w.get_cursor_vertical_diff()
-            hist.append(row)
-        case = dict(kind="seq", top=top0, rows=hist)
-        ctx.count(case, tag="vdiff-seq")
-        if (w.top_usable_row - top0) + total != hist[-1] - (w._last_cursor_row - 0) + 0 and False:
-            pass
-    # (the sequence oracle proper: see seq_oracle)
     seq_oracle(ctx)
 
 
